@@ -14,6 +14,7 @@ import (
 	"os"
 	"path/filepath"
 	"sort"
+	"strconv"
 	"strings"
 	"sync"
 	"time"
@@ -60,6 +61,13 @@ func ProcessInit() {
 			panic(err)
 		}
 		wire.SetLimits(config.ExcessiveBlockSize)
+		// VERIF_TZ_MINUTES: run the process in a non-UTC local time zone (a fixed offset: no tzdata needed), as a service
+		// deployed outside UTC does; stored and exported timestamps must not depend on it
+		if v := os.Getenv("VERIF_TZ_MINUTES"); v != "" {
+			if m, err := strconv.Atoi(v); err == nil && m != 0 {
+				time.Local = time.FixedZone(fmt.Sprintf("verif%+d", m), m*60)
+			}
+		}
 	})
 }
 
